@@ -66,7 +66,10 @@ Pool ==
      Q("{ o { ...G } n { y ...G } } fragment G on O { x }", "", "AA", "-"),                     \* 36
      Q("{ o { ...G } n { y } } fragment G on O { x }", "", "AB", "-"),                          \* 37
      Q("{ o { ...G } n { y ...G @skip(if: true) } } fragment G on O { x }", "", "AC", "-"),     \* 38
-     Q("{ o { ...G ...G } n { y } } fragment G on O { x }", "", "AD", "-")                      \* 39
+     Q("{ o { ...G ...G } n { y } } fragment G on O { x }", "", "AD", "-"),                     \* 39
+     \* fields resolved by their source value (graphql.FieldResolver), literal arguments
+     Q("{ srl { r(y: 2) } }", "", "AE", "-"),                                                   \* 40
+     Q("{ srl { r(e: RED) p } sr { r(e: RED) } }", "", "AF", "-")                               \* 41
   >>
 
 Schemas == {"s1", "s2"}
